@@ -296,6 +296,11 @@ pub fn show_main(file: &str) {
         };
         println!("{}: consumed={} skip_ret={:?} total={} polls={} alloc={:?}\n  res={}\n  next={:?}", name, o.consumed, o.skip_ret, o.consumed_total, o.polls, o.alloc, r, o.next);
     };
+    if let crate::case::Level::Pb(_) = &case.level {
+        let m = crate::eval::run_pb(&case, case.run_stream, crate::eval::AllocCaps::default(), 0);
+        show(if case.run_stream { "simbuf" } else { "bytes" }, &m);
+        return;
+    }
     if case.run_mem {
         let m = crate::eval::run_mem(&case, &w.gens, crate::eval::AllocCaps::default(), 0);
         show("mem", &m);
